@@ -360,13 +360,107 @@ theorem j2_head (r : RawTimes) (h0 : 0 < (j2Of r).length) (h1 : 0 < (j1Of r).len
   · rw [ediff_getElem_zero] at hneg
     exact absurd hneg (lt_irrefl 0)
 
+/-! ### half-integer day series (no assumption on the median) -/
+
+/-- the median of whole numbers is a whole number or lies half way between two -/
+theorem median_half (L : List Int) : ∃ k : Int, medianD (castL L) = (k : Rat) / 2 := by
+  have hmem : ∀ x, x ∈ sortR (castL L) → ∃ z : Int, x = (z : Rat) := by
+    intro x hx
+    have := (sortR_perm (castL L)).mem_iff.mp hx
+    simp only [castL, List.mem_map] at this
+    obtain ⟨z, _, e⟩ := this
+    exact ⟨z, e.symm⟩
+  unfold medianD median
+  simp only []
+  split
+  · exact ⟨0, by simp⟩
+  · split
+    · cases hq : (sortR (castL L))[(sortR (castL L)).length / 2]? with
+      | none => exact ⟨0, by simp⟩
+      | some a =>
+        obtain ⟨z, hz⟩ := hmem a (List.mem_of_getElem? hq)
+        exact ⟨2 * z, by simp [hz]⟩
+    · cases hq1 : (sortR (castL L))[(sortR (castL L)).length / 2 - 1]? with
+      | none => exact ⟨0, by simp⟩
+      | some a =>
+        cases hq2 : (sortR (castL L))[(sortR (castL L)).length / 2]? with
+        | none => exact ⟨0, by simp⟩
+        | some b =>
+          obtain ⟨z1, hz1⟩ := hmem a (List.mem_of_getElem? hq1)
+          obtain ⟨z2, hz2⟩ := hmem b (List.mem_of_getElem? hq2)
+          exact ⟨z1 + z2, by simp [hz1, hz2]⟩
+
+theorem j1_half (r : RawTimes) (i : Nat) (hi : i < (j1Of r).length) : ∃ k : Int, (j1Of r)[i] = (k : Rat) / 2 := by
+  have h1 : i < r.jday.length := by rwa [j1Of_length] at hi
+  rw [j1_getElem r i hi h1]
+  split
+  · exact median_half r.jday
+  · exact ⟨2 * r.jday[i], by push_cast; ring⟩
+
+theorem j2_half (r : RawTimes) (i : Nat) (hi : i < (j2Of r).length) : ∃ k : Int, (j2Of r)[i] = (k : Rat) / 2 := by
+  have hl1 := j1Of_length r
+  have hl2 := j2Of_length r
+  rcases j2_getElem r i hi (by omega) (by simp; omega) with ⟨e, _⟩ | ⟨e, _⟩
+  · rw [e]; exact j1_half r i (by omega)
+  · rw [e]
+    have hne : j1Of r ≠ [] := by
+      intro h
+      rw [h] at hl1
+      simp at hl1
+      omega
+    obtain ⟨j, hj, ej⟩ := List.mem_iff_getElem.mp (maxR_mem (j1Of r) hne)
+    rw [← ej]
+    exact j1_half r j hj
+
+/-- truncation toward zero of a half-integer: exact, or off by exactly one half -/
+theorem truncR_half (k : Int) :
+    ((truncR ((k : Rat) / 2) : Int) : Rat) = (k : Rat) / 2 ∨
+    absR (((truncR ((k : Rat) / 2) : Int) : Rat) - (k : Rat) / 2) = 1 / 2 := by
+  rcases Int.emod_two_eq_zero_or_one k with h | h
+  · left
+    obtain ⟨m, hm⟩ : ∃ m, k = 2 * m := ⟨k / 2, by omega⟩
+    have : (k : Rat) / 2 = (m : Rat) := by rw [hm]; push_cast; ring
+    rw [this, truncR_intCast]
+  · right
+    obtain ⟨m, hm⟩ : ∃ m, k = 2 * m + 1 := ⟨k / 2, by omega⟩
+    have hx : (k : Rat) / 2 = (m : Rat) + 1 / 2 := by rw [hm]; push_cast; ring
+    rw [hx]
+    unfold truncR
+    by_cases hneg : (m : Rat) + 1 / 2 < 0
+    · rw [if_pos hneg]
+      have hm1 : m ≤ -1 := by
+        by_contra hc
+        have : (0 : Rat) ≤ (m : Rat) := by exact_mod_cast (by omega : 0 ≤ m)
+        linarith
+      have hfl : ⌊-((m : Rat) + 1 / 2)⌋ = -m - 1 := by
+        rw [Int.floor_eq_iff]
+        constructor
+        · push_cast; linarith
+        · push_cast; linarith
+      show absR (((-⌊-((m : Rat) + 1 / 2)⌋ : Int) : Rat) - ((m : Rat) + 1 / 2)) = 1 / 2
+      rw [hfl]
+      push_cast
+      have e : -(-(m : Rat) - 1) - ((m : Rat) + 1 / 2) = 1 / 2 := by ring
+      rw [e]
+      unfold absR
+      norm_num
+    · rw [if_neg hneg]
+      have hfl : ⌊(m : Rat) + 1 / 2⌋ = m := by
+        rw [Int.floor_eq_iff]
+        constructor
+        · linarith
+        · linarith
+      show absR (((⌊(m : Rat) + 1 / 2⌋ : Int) : Rat) - ((m : Rat) + 1 / 2)) = 1 / 2
+      rw [hfl]
+      unfold absR
+      norm_num
+
 /-! ### the scenario: arbitrary day / ms fields on the lines marked `good = false` -/
 
 /-- `r0` is what the instrument should have recorded (plausible, one calendar year, every line consistent
 with the line numbers to the millisecond); `r` is the file: the same line numbers, and on the lines marked
 `good` the same year, day and ms fields - on the other lines ANY values (years plausible: an implausible year
-is the subject of `repair_year_out_of_range`).  Side conditions: the first line is good, the median of the
-recorded day numbers is a whole number. -/
+is the subject of `repair_year_out_of_range`).  Only side condition: the first line is good. -/
 structure GarbledAny (P : Rat) (sg : Bool) (nowYear : Int) (r0 r : RawTimes) (good : List Bool) : Prop where
   clean : Clean nowYear r0
   year_const : ∀ y ∈ r0.year, y = r0.year.headD 0
@@ -384,13 +478,13 @@ structure GarbledAny (P : Rat) (sg : Bool) (nowYear : Int) (r0 r : RawTimes) (go
     good[i] = true → r.jday[i] = r0.jday[i]
   good_m : ∀ i (h1 : i < good.length) (h2 : i < r.msec.length) (h3 : i < r0.msec.length),
     good[i] = true → r.msec[i] = r0.msec[i]
-  med_int : ∃ k : Int, medianD (castL r.jday) = (k : Rat)
 
-/-- the stronger scenario of the 40 % guarantee: in addition EVERY year is intact, the ms field lies within its
-unsigned 32 bits, and the pass spans at most six hours -/
+/-- the stronger scenario of the 40 % guarantee: in addition EVERY year is intact, the median of the recorded day
+numbers is a whole number, the ms field lies within its unsigned 32 bits, and the pass spans at most six hours -/
 structure Garbled (P : Rat) (sg : Bool) (nowYear : Int) (r0 r : RawTimes) (good : List Bool) : Prop
     extends GarbledAny P sg nowYear r0 r good where
   year_eq : r.year = r0.year
+  med_int : ∃ k : Int, medianD (castL r.jday) = (k : Rat)
   msec_u32 : ∀ m ∈ r.msec, 0 ≤ m ∧ m < 4294967296
   span : ∀ i (h : i < r0.nums.length),
     0 ≤ ((lineIdx sg r0.nums[i] - lineIdx sg (r0.nums.headD 0) : Int) : Rat) * P ∧
@@ -459,7 +553,8 @@ theorem instant_cast (Y z : Int) :
 (to the ms) or the recorded time of day on day `z` - the latter only where the recorded series does not
 jump. -/
 theorem line_cases {P : Rat} {sg : Bool} {nowYear : Int} {r0 r : RawTimes} {good : List Bool}
-    (h : GarbledAny P sg nowYear r0 r good) (i : Nat) (hi : i < r0.nums.length)
+    (h : GarbledAny P sg nowYear r0 r good) (hmed : ∃ k : Int, medianD (castL r.jday) = (k : Rat))
+    (i : Nat) (hi : i < r0.nums.length)
     (hyi : r.year.getD i 0 = r0.year.headD 0) :
     ∃ z : Int, (j2Of r).getD i 0 = (z : Rat) ∧
       (absR (offErr P sg nowYear r0 r i) < 1 ∨
@@ -477,7 +572,7 @@ theorem line_cases {P : Rat} {sg : Bool} {nowYear : Int} {r0 r : RawTimes} {good
   have hlj0 : r0.jday.length = r0.nums.length := h.clean.len_j
   have hly0 : r0.year.length = r0.nums.length := h.clean.len_y
   have hlid : (idealOfDay P sg r0).length = r0.nums.length := idealOfDay_length P sg r0 h.clean.len_j
-  obtain ⟨z, hz⟩ := j2_int r h.med_int i (by omega)
+  obtain ⟨z, hz⟩ := j2_int r hmed i (by omega)
   refine ⟨z, by rw [getD_eq _ _ (by omega), hz], ?_⟩
   -- the stage-1 instant of this line
   have hs := s1_yearOk_getElem P sg nowYear r hY i hin (by omega)
@@ -533,6 +628,93 @@ theorem line_cases {P : Rat} {sg : Bool} {nowYear : Int} {r0 r : RawTimes} {good
     · rw [getD_eq _ _ (by simp; rw [h.len_m]; exact hi), getD_eq _ _ (by simp; omega)]
       exact hk
 
+/-- **Line by line, without any assumption on the day fields** (the repaired day may be a half-integer median):
+with `z` the whole-number day the repaired day is truncated to, the stage-1 time is the ideal one (to the ms),
+or at least twelve hours away from it, or the recorded time of day on day `z`. -/
+theorem line_cases_half {P : Rat} {sg : Bool} {nowYear : Int} {r0 r : RawTimes} {good : List Bool}
+    (h : GarbledAny P sg nowYear r0 r good) (i : Nat) (hi : i < r0.nums.length)
+    (hyi : r.year.getD i 0 = r0.year.headD 0) :
+    ∃ z : Int, z = truncR ((j2Of r).getD i 0) ∧
+      ((absR (offErr P sg nowYear r0 r i) < 1 ∧ ((j2Of r).getD i 0 = (z : Rat))) ∨
+       (absR (offErr P sg nowYear r0 r i) > 720000 ∧ ((j2Of r).getD i 0 ≠ (z : Rat))) ∨
+       (offErr P sg nowYear r0 r i = ((z : Rat) - ((r0.jday.getD i 0 : Int) : Rat)) * 86400000
+            + (((r.msec.getD i 0 : Int) : Rat) - (idealOfDay P sg r0).getD i 0))) := by
+  have hY := h.yearOk
+  have hin : i < r.nums.length := by rw [h.nums_eq]; exact hi
+  have hl2 : (j2Of r).length = r0.nums.length := by rw [j2Of_length, h.len_j]
+  have hl1 : (j1Of r).length = r0.nums.length := by rw [j1Of_length, h.len_j]
+  have hlm : (m2Of P sg r).length = r0.nums.length := by rw [m2Of_length P sg nowYear r hY, h.nums_eq]
+  have hls : (s1Instants (stage1 P sg nowYear r)).length = r0.nums.length := by
+    rw [s1_yearOk_length P sg nowYear r hY, h.nums_eq]
+  have hlj0 : r0.jday.length = r0.nums.length := h.clean.len_j
+  have hly0 : r0.year.length = r0.nums.length := h.clean.len_y
+  have hlid : (idealOfDay P sg r0).length = r0.nums.length := idealOfDay_length P sg r0 h.clean.len_j
+  obtain ⟨k, hk2⟩ := j2_half r i (by omega)
+  refine ⟨truncR ((j2Of r).getD i 0), rfl, ?_⟩
+  rw [getD_eq (j2Of r) _ (by omega)]
+  set z := truncR (j2Of r)[i] with hzdef
+  have hs := s1_yearOk_getElem P sg nowYear r hY i hin (by omega)
+  have hyr : r.year[i]'(by rw [h.len_y]; exact hi) = r0.year.headD 0 := by
+    rw [← hyi, getD_eq _ _ (by rw [h.len_y]; exact hi)]
+  have hyr0 : r0.year[i]'(by omega) = r0.year.headD 0 := h.year_const _ (List.getElem_mem _)
+  have hid := ideal_instant_identity P sg nowYear r0 h.clean h.year_const i hi
+  rw [hyr0, instant_cast] at hid
+  unfold offErr
+  rw [getD_eq _ _ (by omega), getD_eq (r0.nums) _ (by omega), hs, hyr, ← hzdef]
+  have hmsec : (m2Of P sg r)[i]'(by omega)
+        = (idealOf P sg r.nums (j2Of r) ((r.msec.headD 0 : Int) : Rat))[i]'(by
+            rw [idealOf_length P sg r.nums (j2Of r) _ (by rw [hl2, h.nums_eq])]; exact hin) ∨
+      ((m2Of P sg r)[i]'(by omega) = ((r.msec[i]'(by rw [h.len_m]; exact hi) : Int) : Rat) ∧
+        ¬ (((((ediffU32 r.msec)[i]'(by simp; rw [h.len_m]; exact hi) : Int) : Rat) < -1000 ∨
+            ((((ediffU32 r.msec)[i]'(by simp; rw [h.len_m]; exact hi) : Int) : Rat) > 1000))
+          ∧ (ediff (j1Of r))[i]'(by simp; omega) ≠ 1)) := by
+    unfold m2Of
+    exact msecFix2_spec P sg r.nums (j1Of r) (j2Of r) r.msec hY.msec_first hY.n_pos
+      (by rw [hl1, h.nums_eq]) (by rw [hl2, h.nums_eq]) hY.len_m i hin (by
+        have : (m2Of P sg r).length = r0.nums.length := hlm
+        unfold m2Of at this; omega)
+  rcases hmsec with e | ⟨e, _⟩
+  · -- replaced by the ideal value for the (possibly half-integer) repaired day
+    rw [e, idealOf_getElem P sg r.nums (j2Of r) _ i (by rw [idealOf_length P sg r.nums (j2Of r) _ (by rw [hl2, h.nums_eq])]; exact hin)
+      hin (by omega), h.j2_headR, h.msec_head]
+    have hn0 : r.nums[i] = r0.nums[i] := by simp only [h.nums_eq]
+    have hn1 : r.nums.headD 0 = r0.nums.headD 0 := by rw [h.nums_eq]
+    rw [hn0, hn1]
+    set R : Rat := ((r0.msec.headD 0 : Int) : Rat) + (((lineIdx sg r0.nums[i] - lineIdx sg (r0.nums.headD 0) : Int) : Rat) * P
+      - ((j2Of r)[i] - ((r0.jday.headD 0 : Int) : Rat)) * 86400000) with hR
+    have hc := truncR_close R
+    rw [absR_lt_iff] at hc
+    have hoff : ((instant (r0.year.headD 0) z 0 + truncR R : Int) : Rat) - ((lineIdx sg r0.nums[i] : Int) : Rat) * P - passOffset P sg r0
+        = ((z : Rat) - (j2Of r)[i]) * 86400000 + (((truncR R : Int) : Rat) - R) := by
+      push_cast
+      rw [instant_cast, hR]
+      unfold passOffset instant msPerDay
+      push_cast
+      ring
+    rw [hoff]
+    have hth := truncR_half k
+    rw [← hk2, ← hzdef] at hth
+    rcases hth with hexact | hhalf
+    · left
+      refine ⟨?_, hexact.symm⟩
+      rw [hexact, absR_lt_iff]
+      constructor <;> linarith [hc.1, hc.2]
+    · right; left
+      refine ⟨?_, ?_⟩
+      · unfold absR at hhalf ⊢
+        split at hhalf <;> split <;> nlinarith [hc.1, hc.2]
+      · intro heq
+        rw [heq] at hhalf
+        unfold absR at hhalf
+        norm_num at hhalf
+  · -- the recorded time of day, on day `z`
+    right; right
+    rw [e, truncR_intCast, getD_eq _ _ (by omega), getD_eq (r.msec) _ (by rw [h.len_m]; exact hi),
+      getD_eq (idealOfDay P sg r0) _ (by omega)]
+    push_cast
+    rw [instant_cast]
+    linarith [hid]
+
 /-! ### good lines, lost lines and the lines before them -/
 
 theorem le_absR (x : Rat) : x ≤ absR x := by
@@ -551,8 +733,8 @@ def KeptCond (r : RawTimes) (i : Nat) : Prop :=
 
 /-- a good line comes out of stage 1 within 1 ms of its true time, or a whole number of days away from it
 (its day was replaced by the maximum and its recorded time of day kept) -/
-theorem good_line (h : GarbledAny P sg nowYear r0 r good) (i : Nat) (hi : i < r0.nums.length)
-    (hg : good.getD i false = true) :
+theorem good_line (h : GarbledAny P sg nowYear r0 r good) (hmed : ∃ k : Int, medianD (castL r.jday) = (k : Rat))
+    (i : Nat) (hi : i < r0.nums.length) (hg : good.getD i false = true) :
     absR (offErr P sg nowYear r0 r i) < 1 ∨
     (absR (offErr P sg nowYear r0 r i) > 720000 ∧ (j2Of r).getD i 0 ≠ (j1Of r).getD i 0 ∧ KeptCond r i) := by
   have hgl : i < good.length := by rw [h.len_g]; exact hi
@@ -566,7 +748,7 @@ theorem good_line (h : GarbledAny P sg nowYear r0 r good) (i : Nat) (hi : i < r0
     have hy0 : i < r0.year.length := by rw [h.clean.len_y]; exact hi
     rw [getD_eq _ _ hy1, h.good_y i hgl hy1 hy0 hg']
     exact h.year_const _ (List.getElem_mem hy0)
-  obtain ⟨z, hz, hc⟩ := line_cases h i hi hyi
+  obtain ⟨z, hz, hc⟩ := line_cases h hmed i hi hyi
   rcases hc with hrep | ⟨hoff, hk⟩
   · left; exact hrep
   · obtain ⟨_, h2, hlo, hhi⟩ := h.truth i hi
@@ -594,6 +776,58 @@ theorem good_line (h : GarbledAny P sg nowYear r0 r good) (i : Nat) (hi : i < r0
       · rw [hz, getD_eq _ _ hl1, h.j1_good i hi hg']
         intro hEq
         exact hzj (by exact_mod_cast hEq)
+
+/-- the same without any assumption on the day fields (and without the record of why the time of day was kept) -/
+theorem good_line_half (h : GarbledAny P sg nowYear r0 r good) (i : Nat) (hi : i < r0.nums.length)
+    (hg : good.getD i false = true) :
+    absR (offErr P sg nowYear r0 r i) < 1 ∨
+    (absR (offErr P sg nowYear r0 r i) > 720000 ∧ (j2Of r).getD i 0 ≠ (j1Of r).getD i 0) := by
+  have hgl : i < good.length := by rw [h.len_g]; exact hi
+  have hg' : good[i] = true := by rw [getD_eq _ _ hgl] at hg; exact hg
+  have hm1 : i < r.msec.length := by rw [h.len_m]; exact hi
+  have hm0 : i < r0.msec.length := by rw [h.clean.len_m]; exact hi
+  have hj0 : i < r0.jday.length := by rw [h.clean.len_j]; exact hi
+  have hl1 : i < (j1Of r).length := by rw [j1Of_length, h.len_j]; exact hi
+  have hyi : r.year.getD i 0 = r0.year.headD 0 := by
+    have hy1 : i < r.year.length := by rw [h.len_y]; exact hi
+    have hy0 : i < r0.year.length := by rw [h.clean.len_y]; exact hi
+    rw [getD_eq _ _ hy1, h.good_y i hgl hy1 hy0 hg']
+    exact h.year_const _ (List.getElem_mem hy0)
+  have hj1 : (j1Of r).getD i 0 = ((r0.jday[i] : Int) : Rat) := by rw [getD_eq _ _ hl1, h.j1_good i hi hg']
+  obtain ⟨z, hz, hc⟩ := line_cases_half h i hi hyi
+  rcases hc with ⟨hrep, _⟩ | ⟨hfar, hne⟩ | hoff
+  · left; exact hrep
+  · right
+    refine ⟨hfar, ?_⟩
+    intro heq
+    -- the first-step day of a good line is a whole number, and truncation leaves whole numbers alone
+    apply hne
+    rw [hz, heq, hj1, truncR_intCast]
+  · obtain ⟨_, h2, hlo, hhi⟩ := h.truth i hi
+    have hmm : r.msec.getD i 0 = r0.msec[i] := by rw [getD_eq _ _ hm1]; exact h.good_m i hgl hm1 hm0 hg'
+    rw [hmm, getD_eq _ _ h2, getD_eq _ _ hj0] at hoff
+    by_cases hzj : z = r0.jday[i]
+    · left
+      rw [hoff, hzj, absR_lt_iff]
+      constructor <;> linarith
+    · right
+      refine ⟨?_, ?_⟩
+      · rcases lt_or_gt_of_ne hzj with hlt | hgt
+        · have : (z : Rat) ≤ (r0.jday[i] : Rat) - 1 := by
+            have : z ≤ r0.jday[i] - 1 := by omega
+            exact_mod_cast this
+          have hneg := neg_le_absR (offErr P sg nowYear r0 r i)
+          rw [hoff] at hneg ⊢
+          nlinarith
+        · have : (r0.jday[i] : Rat) + 1 ≤ (z : Rat) := by
+            have : r0.jday[i] + 1 ≤ z := by omega
+            exact_mod_cast this
+          have hpos := le_absR (offErr P sg nowYear r0 r i)
+          rw [hoff] at hpos ⊢
+          nlinarith
+      · intro heq
+        apply hzj
+        rw [hz, heq, hj1, truncR_intCast]
 
 /-- where the repaired day differs from the first-step day, the first-step series steps down from the
 line before -/
@@ -650,7 +884,7 @@ theorem line_before_lost (h : Garbled P sg nowYear r0 r good) (p : Nat) (hp : p 
     have hy0 : p < r0.year.length := by rw [h.clean.len_y]; exact hpp
     rw [h.year_eq, getD_eq _ _ hy0]
     exact h.year_const _ (List.getElem_mem hy0)
-  obtain ⟨z, hz, hc⟩ := line_cases h.toGarbledAny p hpp hyp
+  obtain ⟨z, hz, hc⟩ := line_cases h.toGarbledAny h.med_int p hpp hyp
   rcases hc with hrep | ⟨hoff, _⟩
   · left; exact hrep
   · right
@@ -729,21 +963,32 @@ theorem close_near_band (hd : Int) (hhead : absR (passOffset P sg r0 - (hd : Rat
 theorem good_near_band (h : GarbledAny P sg nowYear r0 r good) (hd : Int)
     (hhead : absR (passOffset P sg r0 - (hd : Rat)) ≤ 360000 - 2) (i : Nat) (hi : i < r0.nums.length)
     (hg : GoodI good i) (hnr : NearI P sg nowYear r0 r hd i) : BandI P sg nowYear r0 r i := by
-  rcases good_line h i hi hg with hc | ⟨hf, _, _⟩
+  rcases good_line_half h i hi hg with hc | ⟨hf, _⟩
   · exact (close_near_band hd hhead i hc).2
   · exact absurd hnr (far_not_near hd hhead i hf)
 
 /-- a good line NOT near the header time follows a bad line from which the first-step day series steps down,
 and kept its recorded time of day -/
-theorem good_lost (h : GarbledAny P sg nowYear r0 r good) (hd : Int)
+theorem good_lost (h : GarbledAny P sg nowYear r0 r good) (hmed : ∃ k : Int, medianD (castL r.jday) = (k : Rat)) (hd : Int)
     (hhead : absR (passOffset P sg r0 - (hd : Rat)) ≤ 360000 - 2) (i : Nat) (hi : i < r0.nums.length)
     (hg : GoodI good i) (hnn : ¬ NearI P sg nowYear r0 r hd i) :
     ∃ p, i = p + 1 ∧ ¬ GoodI good p ∧ (j1Of r).getD (p + 1) 0 < (j1Of r).getD p 0 ∧ KeptCond r (p + 1) := by
-  rcases good_line h i hi hg with hc | ⟨_, hne, hk⟩
+  rcases good_line h hmed i hi hg with hc | ⟨_, hne, hk⟩
   · exact absurd (close_near_band hd hhead i hc).1 hnn
   · obtain ⟨p, hip, hlt⟩ := day_replaced_step r i (by rw [h.len_j]; exact hi) hne
     subst hip
     exact ⟨p, rfl, pred_not_good h p hi hg hlt, hlt, hk⟩
+
+/-- the same without any assumption on the day fields: a good line not near the header time follows a bad line -/
+theorem good_lost_half (h : GarbledAny P sg nowYear r0 r good) (hd : Int)
+    (hhead : absR (passOffset P sg r0 - (hd : Rat)) ≤ 360000 - 2) (i : Nat) (hi : i < r0.nums.length)
+    (hg : GoodI good i) (hnn : ¬ NearI P sg nowYear r0 r hd i) :
+    ∃ p, i = p + 1 ∧ ¬ GoodI good p := by
+  rcases good_line_half h i hi hg with hc | ⟨_, hne⟩
+  · exact absurd (close_near_band hd hhead i hc).1 hnn
+  · obtain ⟨p, hip, hlt⟩ := day_replaced_step r i (by rw [h.len_j]; exact hi) hne
+    subst hip
+    exact ⟨p, rfl, pred_not_good h p hi hg hlt⟩
 
 open Classical in
 theorem bad_card (h : GarbledAny P sg nowYear r0 r good) :
@@ -875,7 +1120,7 @@ theorem repair_day_ms_garbage (P : Rat) (sg : Bool) (nowYear : Int) (hd : Int) (
   have hb : ∀ i, i < r0.nums.length → GoodI good i → ¬ NearI P sg nowYear r0 r hd i →
       ∃ p, i = p + 1 ∧ ¬ GoodI good p ∧ (BandI P sg nowYear r0 r p ∨ ¬ NearI P sg nowYear r0 r hd p) := by
     intro i hi hg hnn
-    obtain ⟨p, hip, hng, hlt, hk⟩ := good_lost h.toGarbledAny hd hhead i hi hg hnn
+    obtain ⟨p, hip, hng, hlt, hk⟩ := good_lost h.toGarbledAny h.med_int hd hhead i hi hg hnn
     subst hip
     refine ⟨p, rfl, hng, ?_⟩
     rcases line_before_lost h p hi hg hlt hk with hc | hf
@@ -889,7 +1134,7 @@ theorem repair_day_ms_garbage (P : Rat) (sg : Bool) (nowYear : Int) (hd : Int) (
 
 /-- **ANY garbage - year, day-of-year and millisecond fields - on fewer than one third of the lines is
 repaired** (scenario `GarbledAny`: the corrupt lines carry arbitrary plausible years, arbitrary days, arbitrary
-ms values, with no restriction on the ms field's size or on the length of the pass): every returned time is
+ms values, with no restriction on the ms field's size, on the recorded days or on the length of the pass): every returned time is
 within 10 s (+ 2 ms) of the true time.  Nothing is known here about where the corrupt lines end up, so each
 may both count against the right ones near the header time and spoil the good line after it: hence one third. -/
 theorem repair_any_garbage_third (P : Rat) (sg : Bool) (nowYear : Int) (hd : Int) (r0 r : RawTimes) (good : List Bool)
@@ -905,8 +1150,7 @@ theorem repair_any_garbage_third (P : Rat) (sg : Bool) (nowYear : Int) (hd : Int
   have hb : ∀ i, i < r0.nums.length → GoodI good i → ¬ NearI P sg nowYear r0 r hd i →
       ∃ p, i = p + 1 ∧ ¬ GoodI good p := by
     intro i hi hg hnn
-    obtain ⟨p, hip, hng, _, _⟩ := good_lost h hd hhead i hi hg hnn
-    exact ⟨p, hip, hng⟩
+    exact good_lost_half h hd hhead i hi hg hnn
   have hbc := bad_card h
   obtain ⟨hcount, hmany⟩ := Count.third_count r0.nums.length (GoodI good) (NearI P sg nowYear r0 r hd)
     (BandI P sg nowYear r0 r) ha hb (by rw [hbc]; omega)
